@@ -156,20 +156,25 @@ def _opts(kw):
                 nullvalue=pick(NULLS, kw['nv']))
 
 
-def make_col(tn, dtype, dom, nrows, quick, thorough):
+def make_col(tn, dtype, dom, nrows, quick, thorough, reduced_opts=False):
     doms = {f'v{i}': dom for i in range(nrows)}
     symbolic_cells = dom.kind != 'enumerated'
 
     @cond(f'C16.col.{tn}.{nrows}rows', quick=quick, thorough=thorough,
-          bounds=f'one {tn} column of {nrows} row(s): {dom.describe()}; header from {HEADERS}; nullvalue from {NULLS}; every '
-                 'combination of boxed / unicode / spaced / narrow',
+          bounds=f'one {tn} column of {nrows} row(s): {dom.describe()}; '
+                 + (f'header {HEADERS[0]!r}, nullvalue {NULLS[0]!r}, every combination of boxed / narrow' if reduced_opts else
+                    f'header from {HEADERS}; nullvalue from {NULLS}; every combination of boxed / unicode / spaced / narrow'),
           symbolic='cells (where the domain is symbolic), option bits', enumerated='header, nullvalue, palette cells',
           params={**sym.all_params(doms), **OPT_PARAMS}, group='C16.col')
     def col(**kw):
         values = [doms[f'v{i}'].build(f'v{i}', kw) for i in range(nrows)]
+        if reduced_opts:
+            # larger instance: only boxed / narrow vary (the other options are covered by the smaller instances)
+            kw = dict(kw, nv=0, hd=0, uni=False, spaced=False)
         columns = [Column(pick(HEADERS, kw['hd']), dtype)]
         rows = [(v,) for v in values]
-        kw = dict(kw, nv=enum_int(kw['nv'], 0, 1), hd=enum_int(kw['hd'], 0, 1))
+        if not reduced_opts:
+            kw = dict(kw, nv=enum_int(kw['nv'], 0, 1), hd=enum_int(kw['hd'], 0, 1))
         if symbolic_cells:
             # formatting symbolic values is expensive: unicode / spaced are exercised by the enumerated conditions
             kw = dict(kw, uni=False, spaced=False)
@@ -193,7 +198,7 @@ make_col('date', datetime.date, sym.VChoice([datetime.date(2019, 1, 5), datetime
                                             datetime.date, nullable=True), 2, 240, 900)
 make_col('decimal', D, sym.VDec(DEC_PALETTE[:8]), 2, 300, 600)
 make_col('decimal-wide', D, sym.VDec(DEC_PALETTE[6:]), 2, 300, 600)
-make_col('decimal', D, sym.VDec(DEC_PALETTE), 3, None, 1500)
+make_col('decimal', D, sym.VDec(DEC_PALETTE), 3, None, 1500, reduced_opts=True)
 make_col('set', set, sym.VChoice(SETS, set, nullable=True), 2, 180, 600)
 make_col('object', object, sym.VChoice([1, 'text', D('2.5'), (1, 2)], object, nullable=True), 2, 180, 600)
 
